@@ -121,6 +121,36 @@ def twin_projects(rng, n):
     return out
 
 
+def context_fault_projects(rng, n):
+    """a directive that is refused for its CONTEXT (raised when it is attached to the tree, i.e. by
+    whatever comes next) as the last directive of its file piece before an INCLUDE: the error must
+    stay in the file that holds the directive, whatever the included file begins with"""
+    out = []
+    faults = [N("Body any"), N('Headers\n{"h": 1}'), N("Protocol json-rpc-2.0"), N("200 any"), N("BaseUrl \"https://h/\""), N("Method m"),
+              N("Request any"), N('Query "q=1"\n{"q": 1}')]
+    for i in range(n):
+        roots = treecorr.gen_structured(rng, with_macros=False)
+        k = rng.randint(1, len(roots))
+        head, tail = roots[:k], roots[k:]
+        f = rng.choice(faults)
+        head_text = render_nodes(head + [N(f.text)])
+        tails = [render_nodes(tail) if tail else b"", b"# only a comment\n", b"", b"\n\n", b"TAG @late%d\n" % i]
+        tail_text = rng.choice(tails[:1] * 3 + tails[1:])
+        shape = rng.randrange(4)
+        if shape == 0:
+            files = {"root.jst": head_text + b"INCLUDE tail.jst\n", "tail.jst": tail_text}
+        elif shape == 1:
+            files = {"root.jst": head_text + b"INCLUDE tail.jst", "tail.jst": tail_text}       # INCLUDE as the last line, no line end
+        elif shape == 2:
+            # the faulty piece is itself an included file that goes on to include the rest
+            files = {"root.jst": b"JSIGHT 0.3\nINCLUDE sub/bad.jst\n", "sub/bad.jst": (head_text.split(b"\n", 1)[1] if head_text.startswith(b"JSIGHT") else head_text) + b"INCLUDE tail.jst\n",
+                     "sub/tail.jst": tail_text}
+        else:
+            files = {"root.jst": head_text + b"INCLUDE a.jst\nINCLUDE b.jst\n", "a.jst": b"# nothing here\n", "b.jst": tail_text}
+        out.append(files)
+    return out
+
+
 def locate(lmap, line):
     return lmap[line - 1] if 1 <= line <= len(lmap) else None
 
@@ -132,7 +162,7 @@ def matches_finding(v, f):
 def run(tier, out, model_ok, proof):
     rng = random.Random(seed())
     big = tier == "thorough"
-    projects = special_projects() + twin_projects(rng, 300 if big else 40)
+    projects = special_projects() + twin_projects(rng, 300 if big else 40) + context_fault_projects(rng, 400 if big else 60)
     for i in range(2500 if big else 300):
         roots = treecorr.gen_structured(rng, with_macros=rng.random() < 0.25)
         if rng.random() < 0.25:
@@ -200,7 +230,7 @@ def run(tier, out, model_ok, proof):
     out.coverage.update({
         "evaluations": len(cases),
         "distinct_nontrivial": sum(1 for _, f, _ in metas if len(f) > 1),
-        "rule": "structured documents (some with one injected rule fault) cut at directive boundaries into include trees (whole sibling runs, or any contiguous run of directive lines; nesting <= 3, pieces in sub-directories, equal sibling runs included from the same file, files without a final newline, cuts after directives that still wait for children) + hand-picked projects + projects in which one written include name is used from several directories and names different files; each project is built and compared with its textual inlining (lib/meta.py): catalog JSON, or message and corresponding file:line; forests are compared with the extracted Coq model; non-trivial = at least one INCLUDE",
+        "rule": "structured documents (some with one injected rule fault) cut at directive boundaries into include trees (whole sibling runs, or any contiguous run of directive lines; nesting <= 3, pieces in sub-directories, equal sibling runs included from the same file, files without a final newline, cuts after directives that still wait for children) + hand-picked projects + documents with a context-refused directive as the last one before an INCLUDE (the included file a continuation, empty, comment-only; INCLUDE without a final line end; nested) + projects in which one written include name is used from several directories and names different files; each project is built and compared with its textual inlining (lib/meta.py): catalog JSON, or message and corresponding file:line; forests are compared with the extracted Coq model; non-trivial = at least one INCLUDE",
         "samples": [{n: d.decode("latin1")[:200] for n, d in projects[0].items()}],
         "traces_validated_against_impl": (len([c for c in cases if c["id"].startswith("p")]) - len(mism)) if model_ok else 0,
         "accepted_pairs": acc, "rejected_pairs": rej,
